@@ -811,6 +811,8 @@ FILTER_OPS = {
     SF + "array::JoinFilter": ({"join"}, {"rev"}),
     SF + "array::WhereFilter": ({"all"}, {"any"}),  # the "array of objects" validation quantifies over every element
     SF + "string::truncate::TruncateWordsFilter": ({"split"}, {"split_whitespace", "rsplit", "rev", "unicode_words", "split_ascii_whitespace", "lines"}),
+    SF + "string::strip::StripNewlinesFilter": ({"filter", "replace", "retain", "split"},
+                                                {"is_control", "is_whitespace", "is_ascii_control", "is_ascii_whitespace", "trim", "lines", "is_alphanumeric"}),
     SF + "string::SplitFilter": ({"split"}, {"rsplit", "rev", "split_whitespace"}),
     SF + "string::operate::ReplaceFilter": ({"replace"}, {"replacen", "splitn"}),
     SF + "string::operate::RemoveFilter": ({"replace"}, {"replacen", "splitn"}),
@@ -823,7 +825,7 @@ FILTER_OPS = {
 OPS_VOC = set("to_uppercase to_lowercase to_ascii_uppercase to_ascii_lowercase trim trim_start trim_end trim_matches trim_start_matches "
               "trim_end_matches rev reverse ceil floor round trunc max min first last next next_back nth nth_back chars get chain extend append "
               "dedup retain filter filter_map join split rsplit split_whitespace replace replacen splitn rsplitn sort_by sort "
-              "graphemes grapheme_indices bytes unicode_words char_indices format parse to_string all any split_ascii_whitespace lines".split())
+              "graphemes grapheme_indices bytes unicode_words char_indices format parse to_string all any split_ascii_whitespace lines is_control is_whitespace is_ascii_control is_ascii_whitespace is_alphanumeric".split())
 
 
 def run_filter_ops(P, rep, only=None, rule="R-TABLE.filterops"):
@@ -920,6 +922,7 @@ STATE_SPEC = {
     "<liquid_lib::stdlib::filters::DefaultFilter as liquid_core::parser::filter::Filter>::evaluate": ({"DefaultValue"}, "default replaces nil, false and empty values only"),
     "<liquid_lib::stdlib::blocks::if_block::ExistenceCondition>::evaluate": ({"Truthy"}, "a bare value is tested for truthiness"),
     "<liquid_lib::stdlib::filters::array::WhereFilter as liquid_core::parser::filter::Filter>::evaluate": ({"Truthy"}, "where without a target keeps objects whose property is truthy"),
+    "<&mut liquid_core::model::value::ser::ValueDeserializer as serde::de::Deserializer>::deserialize_option": (set(), "an Option is None for nil / the empty-blank markers only: `false` is a present value, so no State query belongs here"),
     "<liquid_lib::stdlib::filters::array::CompactFilter as liquid_core::parser::filter::Filter>::evaluate": (set(), "compact removes nil only: `false`, 0 and \"\" are kept, so no State query belongs here"),
 }
 
